@@ -26,7 +26,7 @@
 (*   "idle" - the real (nest_asyncio-patched) loop: callbacks run in batches (_run_once),          *)
 (*            execute() inside a step opens an inner run whose batches run the other ready         *)
 (*            handles, and the environment is a driver task that acts whenever it finds the ready  *)
-(*            queue otherwise empty (and no inner run about to return).                            *)
+(*            queue otherwise empty (and the innermost run not about to return).                   *)
 (***************************************************************************************************)
 EXTENDS Naturals, Sequences, FiniteSets, TLC
 
@@ -243,9 +243,9 @@ Normalise(s) ==
                     IN Normalise(Close(Go(s2, L.caller), s.procs[L.caller].task))
                ELSE [s EXCEPT !.lv[n].rem = Len(s.ready)]
 
-\* the driver is the only ready handle and no inner run is about to return: nothing moves unless the environment acts
+\* the driver is the only ready handle and the innermost run is not about to return: nothing moves unless the environment acts
 Idle(s) == /\ Mode(s) = "idle" /\ s.ready = <<s.drv>>
-           /\ \A i \in 2..Len(s.lv) : s.procs[s.lv[i].wait].st \notin Terminal
+           /\ (Len(s.lv) > 1 => s.procs[s.lv[Len(s.lv)].wait].st \notin Terminal)
 
 (* ----------------------------------------------------------------------------------------------- *)
 (* environment requests (public calls)                                                             *)
